@@ -5,10 +5,12 @@ import (
 	"encoding/hex"
 	"fmt"
 	"sort"
+	"strings"
 
 	"github.com/ontio/ontology-crypto/keypair"
 	ocommon "github.com/ontio/ontology/common"
 	otypes "github.com/ontio/ontology/core/types"
+	"github.com/polynetwork/poly/account"
 	"github.com/polynetwork/poly/common"
 	cstates "github.com/polynetwork/poly/core/states"
 	"github.com/polynetwork/poly/core/types"
@@ -54,6 +56,7 @@ type ontRun struct {
 	nAcc       int // accepted honest artefacts
 	nRejBad    int // rejected faulty artefacts
 	nTolerated int
+	oooKeys    bool // a key header was recorded below an already recorded key height
 	stop       bool
 }
 
@@ -104,6 +107,45 @@ func (r *ontRun) step(i int, st kernel.Step) {
 			return
 		}
 		r.pending = append(r.pending, &ontSub{kind: "hdr", raws: [][]byte{raw}, labels: []string{lab}, forged: []bool{forged}, stepNos: []int{i}})
+	case "okey": // [h, which, mode, p, join]: a configuration-change header signed by the set the MODEL tracks for h
+		h := r.height(a(0))
+		hd := c.keyChange(h, a(1))
+		signers, _ := r.modelSet(h, 0)
+		hash := hd.Hash()
+		sl := c.makeSeal(hash[:], signers, nil, a(2), a(3), 0)
+		raw, lab := sealHeader(hd, sl), "key-change/"+sl.label
+		if abs64(a(4))%2 == 1 && len(r.pending) > 0 && r.pending[len(r.pending)-1].kind == "hdr" {
+			p := r.pending[len(r.pending)-1]
+			p.raws, p.labels, p.forged, p.stepNos = append(p.raws, raw), append(p.labels, lab), append(p.forged, false), append(p.stepNos, i)
+			return
+		}
+		r.pending = append(r.pending, &ontSub{kind: "hdr", raws: [][]byte{raw}, labels: []string{lab}, forged: []bool{false}, stepNos: []int{i}})
+	case "oset": // [h, k, mode, p, kind]: header (0) / message (1) / deposit (2) of height h signed by the set recorded at the k-th greatest key height below h
+		h := r.height(a(0))
+		signers, k := r.modelSet(h, int(abs64(a(1))%3))
+		pre := "newest-set/"
+		if k > 0 {
+			pre = "stale-set/"
+		}
+		switch abs64(a(4)) % 3 {
+		case 0:
+			hd := c.header(h)
+			hash := hd.Hash()
+			sl := c.makeSeal(hash[:], signers, nil, a(2), a(3), 0)
+			r.pending = append(r.pending, &ontSub{kind: "hdr", raws: [][]byte{sealHeader(hd, sl)}, labels: []string{pre + sl.label}, forged: []bool{false}, stepNos: []int{i}})
+		case 1:
+			m := c.msg(h)
+			hash := m.Hash()
+			sl := c.makeSeal(hash[:], signers, nil, a(2), a(3), 0)
+			r.pending = append(r.pending, &ontSub{kind: "msg", raws: [][]byte{msgBytes(m, sl)}, labels: []string{pre + sl.label}, stepNos: []int{i}})
+		case 2:
+			m := c.msg(h)
+			hash := m.Hash()
+			sl := c.makeSeal(hash[:], signers, nil, a(2), a(3), 0)
+			leaf := int(abs64(a(3)) % ontLeaves)
+			_, ccid := c.leaf(h, leaf, 0)
+			r.pending = append(r.pending, &ontSub{kind: "dep", raws: [][]byte{msgBytes(m, sl)}, labels: []string{pre + sl.label}, height: h, proof: c.proof(h, leaf), ccid: ccid, stepNos: []int{i}})
+		}
 	case "omsg":
 		h := r.height(a(0))
 		raw, lab := c.sealedMsg(h, a(1), a(2), a(3))
@@ -124,6 +166,36 @@ func (r *ontRun) step(i int, st kernel.Step) {
 		}
 		r.pending = append(r.pending, &ontSub{kind: "dep", raws: [][]byte{raw}, labels: []string{lab}, height: ph, proof: c.proof(h, leaf), ccid: ccid, stepNos: []int{i}})
 	}
+}
+
+// modelSet resolves "the peer set recorded at the k-th greatest key height below h" from the
+// model (k=0: the one the property names) to signing accounts; it returns the k actually used.
+// Without any recorded set below h the canonical signers of the simulated chain are used.
+func (r *ontRun) modelSet(h uint32, k int) ([]*account.Account, int) {
+	var ks []uint32
+	for _, x := range r.m.keyHeightsDesc() {
+		if x < h {
+			ks = append(ks, x)
+		}
+	}
+	if len(ks) == 0 {
+		cur, _ := r.c.signers(h)
+		return cur, 0
+	}
+	if k >= len(ks) {
+		k = len(ks) - 1
+	}
+	var out []*account.Account
+	for _, id := range r.m.sets[ks[k]] {
+		if a := r.c.byPub[id]; a != nil {
+			out = append(out, a)
+		}
+	}
+	if len(out) == 0 {
+		cur, _ := r.c.signers(h)
+		return cur, 0
+	}
+	return out, k
 }
 
 func (r *ontRun) buildTx(s *ontSub) *types.Transaction {
@@ -206,10 +278,14 @@ func (r *ontRun) note(kind, label string, accepted bool) {
 		out = "accepted"
 	}
 	r.run.Probe("ont_" + kind + ":" + label + ":" + out)
+	if r.oooKeys && (strings.HasPrefix(label, "stale-set/") || strings.HasPrefix(label, "newest-set/")) {
+		r.run.Probe("ont_after_out_of_order_keys_" + kind + ":" + label + ":" + out)
+	}
 	r.sig = append(r.sig, []byte(kind+label+out)...)
 }
 
 func isFaultLabel(l string) bool {
+	l = strings.TrimPrefix(strings.TrimPrefix(l, "newest-set/"), "key-change/")
 	return l != "honest" && l != "all-members" && l != "extra-sigs" && l != "exact-third" && l != "real"
 }
 
@@ -339,10 +415,25 @@ func (r *ontRun) onHeaders(t *e1.TxTrace, s *ontSub) {
 		}
 		return
 	}
+	maxKey, anyKey := uint32(0), false
+	for k := range r.m.sets {
+		if !anyKey || k > maxKey {
+			maxKey, anyKey = k, true
+		}
+	}
 	for i, v := range vs {
 		if v.skipped {
 			run.Probe("ont_hdr_resubmission_skipped")
 			continue
+		}
+		if v.newSet != nil {
+			if anyKey && v.height < maxKey {
+				run.Probe("ont_key_header_recorded_below_an_already_recorded_key_height")
+				r.oooKeys = true
+			}
+			if !anyKey || v.height > maxKey {
+				maxKey, anyKey = v.height, true
+			}
 		}
 		r.note("hdr", s.labels[i], true)
 		if !isFaultLabel(s.labels[i]) {
